@@ -158,7 +158,9 @@ def assume(term):
 def side(name, term):
     """Record a side obligation (must hold under base+axioms+pc at this point)."""
     c = ctx()
-    c.side.append((name, z3.And(*c.pc) if c.pc else z3.BoolVal(True), term))
+    # hypotheses are SNAPSHOT at this program point: later assumptions (e.g. the ensures of the callee whose
+    # requires this is, or the loop invariant assumed after the entry check) must not be available to it
+    c.side.append((name, list(c.axioms) + list(c.pc), term))
 
 
 class SBool:
